@@ -85,8 +85,8 @@ def _storage(case, st, i):
 
 
 def _none_plan(case, i):
-    """(function name, term) of one mapped invocation that legitimately returns None (every fifth case), or None."""
-    if i % 5 != 2:
+    """(function name, term) of one mapped invocation that legitimately returns None (two of five cases), or None."""
+    if i % 5 not in (2, 4):
         return None
     _, calls = mapgen.oracle(case)
     for f in case["funcs"]:
